@@ -107,6 +107,18 @@ inline bool spFrom(const MatrixSparse* m, Sp& s)
   s.nr = m->getNRows();
   s.nc = m->getNCols();
   s.row.assign((size_t)std::max(0, s.nr), {});
+  if (!m->isFlagEigen())
+  {
+    // csparse storage: the triplet conversion drops entries below 1e-10 in absolute value, read the
+    // entries one by one instead
+    for (int i = 0; i < s.nr; i++)
+      for (int j = 0; j < s.nc; j++)
+      {
+        double v = m->getValue(i, j, false);
+        if (v != 0) s.row[(size_t)i].push_back({j, (LD)v});
+      }
+    return true;
+  }
   NF_Triplet t = m->getMatrixToTriplet();
   for (int k = 0, n = t.getNumber(); k < n; k++)
   {
@@ -251,8 +263,8 @@ struct MeshSpec
   std::vector<double> dx, x0, ang; // ang in degrees (size ndim when ndim >= 2)
   int kind = 0;
   double amp = 0.2;          // jitter amplitude (fraction of the cell) for kind 2
-  std::vector<double> jit;   // kind 2: per grid node and axis, in [-1,1]
-  std::vector<int> mask;     // kind 3: per grid node, 1 = selected
+  std::vector<double> jit;   // kind 2: pattern in [-1,1], used cyclically per (grid node, axis)
+  std::vector<int> mask;     // kind 3: pattern (1 = selected), used cyclically per grid node
   template<class A> void io(A& a) { a("ndim", ndim)("nx", nx)("dx", dx)("x0", x0)("ang", ang)("kind", kind)("amp", amp)("jit", jit)("mask", mask); }
   int nnodes() const
   {
@@ -311,14 +323,12 @@ inline MeshSpec genMeshSpec(int maxNodes, std::vector<int> kinds, int maxPerAxis
   if (m.kind == 2)
   {
     m.amp = G::pick<double>({0.05, 0.2, 0.3});
-    int n = m.nnodes() * m.ndim;
-    m.jit.resize((size_t)n);
+    m.jit.resize(23); // pattern used cyclically over (node, axis)
     for (auto& v : m.jit) v = G::r(-1, 1, 16);
   }
   if (m.kind == 3)
   {
-    int n = m.nnodes();
-    m.mask.assign((size_t)n, 1);
+    m.mask.assign(61, 1); // pattern used cyclically over the grid nodes
     int p = G::pick<int>({5, 15, 30});
     for (auto& v : m.mask) v = G::pct(p) ? 0 : 1;
   }
@@ -394,7 +404,20 @@ inline bool buildMesh(const MeshSpec& s, Built& B, Ctx& ctx)
   B.U = vfgeo::rotationAxes(ndim, s.ang);
   int nn = s.nnodes();
   B.mask.assign((size_t)nn, 1);
-  if (s.kind == 3) B.mask = s.mask;
+  if (s.kind == 3)
+  {
+    for (int r = 0; r < nn; r++) B.mask[(size_t)r] = s.mask[(size_t)r % s.mask.size()];
+    // the first cell always survives (so that the mesh is never empty)
+    for (int r = 0; r < nn; r++)
+    {
+      int idx[3];
+      bool first = true;
+      nodeIndices(s, r, idx);
+      for (int d = 0; d < ndim; d++)
+        if (idx[d] > 1) first = false;
+      if (first) B.mask[(size_t)r] = 1;
+    }
+  }
   std::string kn = kindName(s.kind);
 
   ctx.at("DbGrid::create");
@@ -553,7 +576,7 @@ inline bool buildMesh(const MeshSpec& s, Built& B, Ctx& ctx)
           if (idx[d] == 0 || idx[d] == s.nx[(size_t)d] - 1) interior = false;
         if (!interior) continue;
         double t[3];
-        for (int d = 0; d < ndim; d++) t[d] = idx[d] + amp * s.jit[(size_t)(r * ndim + d)];
+        for (int d = 0; d < ndim; d++) t[d] = idx[d] + amp * s.jit[(size_t)(r * ndim + d) % s.jit.size()];
         gridToWorld(s, B.U, t, &moved[(size_t)(r * ndim)]);
       }
       bool ok = true;
@@ -725,7 +748,7 @@ struct CovSpec
 inline CovSpec genCov(int ndim, double cell, double sillScale, bool allowMarkov)
 {
   CovSpec c;
-  c.type = (allowMarkov && ndim <= 2 && G::pct(12)) ? 1 : 0;
+  c.type = (allowMarkov && ndim <= 2 && G::pct(ndim == 1 ? 15 : 3)) ? 1 : 0; // the normalisation of a Markov model is an FFT on 256^ndim points
   if (G::pct(85))
     c.param = (ndim == 2) ? G::pick<double>({1., 1., 2., 3.}) : G::pick<double>({0.5, 1.5, 1.5, 2.5});
   else
